@@ -207,8 +207,13 @@ def gen_compat(src, one, num):
     L.append("(* " + " ".join(coq_comment_text(x[0]) for x in unimp) + " *)")
     L.append(f"Definition COMPAT_UNIMPLEMENTED : list (list N) := {coq_str_list([x[0] for x in unimp])}.")
     # compat_args: the commands whose arguments are rewritten (the arm that is not bigwigmerge)
-    arm = one(c, r"\n((?:\s*\|?\s*Some\(\"\w+\"\)\s*)+)=> \{\s*let mut args_vec = start;\s*args_vec\.extend\(args\);\s*args_vec\.iter_mut\(\)\.for_each\(compat_arg_mut\);",
+    arm = one(c, r"\n((?:\s*\|?\s*Some\(\"\w+\"\)\s*)+)=> \{\s*let mut args_vec = start;\s*args_vec\.extend\(args\);\s*compat_args_vec\(args_vec\)\.into_iter\(\)",
               "compat_args command arm", re.S)
+    # compat_args_vec: every argument is rewritten; one that the ignore rule blanked is dropped
+    one(c, r"fn compat_args_vec\(args_vec: Vec<OsString>\) -> Vec<OsString> \{\s*args_vec\s*\.into_iter\(\)\s*\.filter_map\(\|mut a\| \{\s*let was_empty = a\.is_empty\(\);\s*"
+           r"compat_arg_mut\(&mut a\);\s*if a\.is_empty\(\) && !was_empty \{\s*None\s*\} else \{\s*Some\(a\)\s*\}\s*\}\)\s*\.collect\(\)\s*\}",
+        "compat_args_vec body", re.S)
+    L.append("Definition COMPAT_DROPS_IGNORED : bool := true.   (* compat_args_vec drops an argument blanked by the ignore rule *)")
     cmds = re.findall(r'Some\("(\w+)"\)', arm)
     L.append("(* " + " ".join(cmds) + " *)")
     L.append(f"Definition COMPAT_COMMANDS : list (list N) := {coq_str_list([x.encode() for x in cmds])}.")
